@@ -163,6 +163,10 @@ func baseEnv(scratch string) []string {
 }
 
 func main() {
+	if len(os.Args) > 1 && os.Args[1] == "crashproc" {
+		crashChild()
+		return
+	}
 	if len(os.Args) < 4 && !(len(os.Args) == 2 && strings.HasSuffix(os.Args[1], "-one")) {
 		fmt.Fprintln(os.Stderr, "usage: harness <prop> <seed> <count> [tier]")
 		os.Exit(2)
